@@ -56,6 +56,12 @@ CHECKS.update({
                 text="AGP.tla checks the notification protocol in every state of its exhaustive exploration (told once before the first trial; the concatenation of OnEndIteration lists is exactly the trial sequence of the completed calls; one OnMethodStop per Solve with the stop status). Bound to the code: listeners derived from the base class overriding each of the 8 subsets of callbacks x batching patterns x N=1..3, and every shipped listener and mode within its documented dimension (console full/custom/result; static 1-D objective function / only points / approximation / interpolation; static N-D lines layers and surface variants; both animation listeners), alone and in combinations, with the recording listener attached before or after them, on random boxes; AGPTrace.tla validates the recorded notification log (NotifBefore, NotifNewPoints, NotifEndIterCount, NotifStopCount, NotifStopFinal, NotifStopStatus), requires every call to return without an internal exception, and compares the console result block parsed from stdout with the Solution (ConsoleReport); SeqCompare.tla requires trial sequence and result to equal the listener-free run." + SOLVER_NOTE),
 })
 
+CHECKS.update({
+    "C19": dict(level="model_checking", design="4/C19", note="TLC 1.8.0/SANY/CommunityModules; the Q kernel; the recorder (object identities as creation ordinals, results and observations copied through public methods only); preconditions of the property (distinct coordinates strictly between the end items, hint = true right neighbour); histories whose tie resolutions exceed 200 candidate states are abandoned and counted, never reported",
+                technique="TLC exhaustive exploration of all short container operation histories (ContainersMC.tla, negative control with wrong hints) + every TLC-generated history replayed on the real classes + TLC trace validation with candidate-state sets (ContainersTrace.tla)",
+                text="Containers.tla models SearchDataItem links, the insertion log, DEPQ-backed queues as bags of (item, key) entries with optional maxlen, RefillQueue and the dual-queue lazy invalidation loop exactly as the code performs them, every operation returning the set of outcomes the unspecified tie-break allows. ContainersMC.tla explores every operation history up to depth 3-4 over small alphabets (insert with/without hint, re-assigned characteristics, clear, refill, best-interval requests, lookups; single and dual queue; bounded and unbounded) checking ordering, links, count, bounds and lookup in every state; wrong hints (outside the precondition) are refuted as a negative control. Every history of maximal depth is replayed on the real SearchData/SearchDataDualQueue and validated by ContainersTrace.tla together with long random histories (random doubles, many equal keys, bounded queues) and the stand-alone CharacteristicsQueue: each returned item must be explained by a maximal (dual: maximal still-current) entry in at least one candidate state, and the traversal, links, count, last item and covering-interval lookup observed after every operation must match."),
+})
+
 NOT_YET = {
 }
 
